@@ -2,6 +2,7 @@
 JSON round trip, layer 2 (continued): `parseFs` on the element written for a flat structure.
 -/
 import CassisModel.Proofs.RoundTripJsonParse2
+import CassisModel.Proofs.RoundTripJsonRen
 
 namespace Cassis.Json
 open Cassis.TS Cassis.Traverse Cassis.Lex Cassis.Xmi Cassis.Xmi.RTB
@@ -22,6 +23,7 @@ theorem parse_pre {K : Consts} {ts : TypeSystem} {cass : List Cas} {c : Cas} {ci
         alistGet? o1.slots f.name = some (exp2 cass H na ci' (isInstanceOf ts o.ty ANNOTATION) o f.name v) ∨
           Pend H s.heap.length ds f.name v) ∧
       (∀ d ∈ ds, DefOk H s.heap.length o d) := by
+  have hNJ := namesJ_of_flat hfl hj ho ht
   obtain ⟨o_, t_, ho_, ht_, htn, _, _, _, hpa, hfa, _, _, _, hnd, hslots, hfeat, hann⟩ := hfl
   rw [ho] at ho_; cases ho_
   rw [ht] at ht_; cases ht_
@@ -65,7 +67,8 @@ theorem parse_pre {K : Consts} {ts : TypeSystem} {cass : List Cas} {c : Cas} {ci
   refine ⟨resObj s.fss (tgtF cass H o) (allFeatures t) o0, resDef s.fss (tgtF cass H o) s.heap.length (allFeatures t),
     ?_, ?_, ?_, ?_, ?_, ?_⟩
   · intro heapF hconv
-    have hgt : getType ts (flatJFs ts cass H q.1 o t).ty = .ok t := getType_of_find ht
+    rw [parseFs_flatJFs K ts tsIdx s cass H q.1 o t hNJ]
+    have hgt : getType ts (flatJFsS ts cass H q.1 o t).ty = .ok t := getType_of_find ht
     have hpa' : isPrimitiveArray K t.name = false := by rw [htn]; exact hpa
     have hfa' : t.name ≠ FS_ARRAY := by rw [htn]; exact hfa
     refine parseFs_steps K ts tsIdx s _ t q.1 _ o0 _ heapF _ hend hgt rfl hpa' hfa' hN ?_ ?_ hconv
